@@ -28,6 +28,7 @@ from __future__ import annotations
 
 import z3
 
+from pyvc.ctx import Unsupported
 from pyvc.dsl import And, Contract, ForAll, Implies, Loop, Not, Or, SBool, SInt, SList, SObj, SOpaque, T, cmp, idx_term, register, to_term_int
 
 import contracts.tree as tree_contracts  # noqa: F401  (call-site contracts of add_child / set_children)
@@ -50,10 +51,11 @@ GMUTATOR_KEYS = ("alternatives_should_concatenate", "plus_should_return_nothing"
                  "terminal_should_repeat", "invert_regex", "non_terminal_use_other_rule")
 
 
-def kids_list(cx, seq, label="children") -> SList:
-    """list of tree nodes backed by a z3 Seq(Int) of their identities"""
+def kids_list(cx, seq, label="children", added=()) -> SList:
+    """list of tree nodes backed by a z3 Seq(Int) of their identities; `added` = the objects that entered through add_child"""
     l = SList(None, length=SInt(z3.Length(seq), 0, None), fresh=False, label=label)
     l.ghost["seq"] = seq
+    l.ghost["added"] = list(added)
 
     def elem(j, seq=seq):
         o = SObj("DerivationTree", {}, fresh=False, label=f"{label}[{idx_term(j)}]")
@@ -62,7 +64,7 @@ def kids_list(cx, seq, label="children") -> SList:
         return o
 
     l.elem = elem
-    l.ghost["seq_make"] = lambda sq: kids_list(cx, sq, label + "[slice]")
+    l.ghost["seq_make"] = lambda sq, l=l: kids_list(cx, sq, label + "'", l.ghost.get("added", ()))
     return l
 
 
@@ -132,12 +134,35 @@ def node_list(cx, base: str, n: SInt) -> SList:
     return l
 
 
+def same_obj(x, y):
+    """z3 Bool: x and y denote the same object (by identity term where both have one)"""
+    if x is y:
+        return z3.BoolVal(True)
+    ix, iy = getattr(x, "ident", None), getattr(y, "ident", None)
+    if isinstance(x, SObj) and isinstance(y, SObj) and ix is not None and iy is not None and not (x.fresh or y.fresh):
+        return ix == iy
+    return z3.BoolVal(False)
+
+
+def last_added(cx, parent: SObj, w):
+    """the object whose add_child produced the last child, or None when nothing was added through add_child; raises
+    Unsupported when the children changed in a way the contract cannot read"""
+    kids = parent.fields.get("_children")
+    added = kids.ghost.get("added") if isinstance(kids, SList) else None
+    if added:
+        return added[-1]         # that it IS the appended child is an obligation of its own (w[0] == its identity)
+    if kids_seq(parent) is not None and not kids_seq(parent).eq(cx.ghost["kids0"]):
+        raise Unsupported("the parent's children changed without add_child; the contract cannot name the new child")
+    return None
+
+
 def appended(cx, parent: SObj):
     """(name, formula) pairs: the children now are the old ones followed by a word w; returns (formulas, w)"""
     now = kids_seq(parent)
     k0 = cx.ghost["kids0"]
     if now is None:
-        return [("children_are_old_children_plus_a_word", z3.BoolVal(False))], EMPTY
+        # the engine lost track of the children (not a property matter): undecided, never a violation
+        raise Unsupported("the parent's children are no longer a sequence of identities the contract can read")
     w = z3.SubString(now, z3.Length(k0), z3.Length(now) - z3.Length(k0))
     return [("earlier_children_untouched", z3.PrefixOf(k0, now))], w
 
@@ -165,7 +190,8 @@ class Node_fuzz(Contract):
         w = z3.Const(cx._name("w"), IS)
         cx.assume(Derives(node.ident, w))
         cx.log_write(parent, "_children")
-        parent.fields["_children"] = kids_list(cx, z3.Concat(seq, w))
+        old = parent.fields.get("_children")
+        parent.fields["_children"] = kids_list(cx, z3.Concat(seq, w), added=old.ghost.get("added", ()) if isinstance(old, SList) else ())
         parent.fields["_size"] = cx.int("size_after_fuzz", lo=1)
         parent.fields["hash_cache"] = None
         cx.ghost.setdefault("fuzz_words", []).append((node, w))
@@ -192,7 +218,7 @@ def _cat_inv(cx, env, i):
     lid = env["self"].fields["nodes"].ghost["ident"]
     it = idx_term(i) if not isinstance(i, int) else z3.IntVal(i)
     if seq is None:
-        return [("children_are_a_sequence", z3.BoolVal(False))]
+        raise Unsupported("the parent's children are no longer a sequence of identities the contract can read")
     k0 = cx.ghost["kids0"]
     w = z3.SubString(seq, z3.Length(k0), z3.Length(seq) - z3.Length(k0))
     return [("earlier_children_untouched", z3.PrefixOf(k0, seq)),
@@ -291,7 +317,7 @@ def _rep_inv(cx, env, i):
     body = env["self"].fields["node"]
     it = idx_term(i) if not isinstance(i, int) else z3.IntVal(i)
     if seq is None:
-        return [("children_are_a_sequence", z3.BoolVal(False))]
+        raise Unsupported("the parent's children are no longer a sequence of identities the contract can read")
     k0 = cx.ghost["kids0"]
     w = z3.SubString(seq, z3.Length(k0), z3.Length(seq) - z3.Length(k0))
     return [("earlier_children_untouched", z3.PrefixOf(k0, seq)),
@@ -468,19 +494,18 @@ class TerminalNode_fuzz(Contract):
         sym = a["self"].fields["symbol"]
         case = cx.ghost["case"]
         out = fs + [("exactly_one_leaf_appended", z3.Length(w) == 1)]
-        new = a["parent"].fields["_children"].ghost.get("last_added")
+        new = last_added(cx, a["parent"], w)
         if new is None:
-            return out + [("a_leaf_was_added", z3.BoolVal(False))]
+            return out           # nothing was appended: `exactly_one_leaf_appended` fails
+        out.append(("appended_leaf_is_the_new_tree", w[0] == new.ident))
         out.append(("leaf_has_no_children", z3.BoolVal(_no_children(new))))
         leaf_sym = new.fields.get("_symbol")
         if case == "literal":
-            out.append(("leaf_carries_the_terminal_symbol", z3.BoolVal(leaf_sym is sym)))
+            out.append(("leaf_carries_the_terminal_symbol", same_obj(leaf_sym, sym)))
             return out
         gen = cx.ghost.get("exrex", [])
-        ok_shape = isinstance(leaf_sym, SObj) and leaf_sym.cls == "Terminal" and isinstance(leaf_sym.fields.get("_value"), SObj) and len(gen) == 1
-        out.append(("leaf_is_a_new_terminal_of_one_generated_text", z3.BoolVal(ok_shape)))
-        if not ok_shape:
-            return out
+        if not (isinstance(leaf_sym, SObj) and leaf_sym.cls == "Terminal" and isinstance(leaf_sym.fields.get("_value"), SObj) and len(gen) == 1):
+            raise Unsupported("regex terminal: the leaf is not Terminal(<one text generated by exrex.getone>) in a form the contract can read")
         pattern, text = gen[0]
         kind, payload, bits = tv.view(leaf_sym.fields["_value"])
         p0 = tv.view(sym.fields["_value"])[1]
@@ -698,26 +723,29 @@ class NonTerminalNode_fuzz(Contract):
         sym = a["self"].fields["symbol"]
         g = a["grammar"]
         out = fs + [("exactly_one_child_appended", z3.Length(w) == 1)]
-        new = a["parent"].fields["_children"].ghost.get("last_added")
+        new = last_added(cx, a["parent"], w)
         if new is None:
-            return out + [("a_child_was_added", z3.BoolVal(False))]
+            return out           # nothing was appended: `exactly_one_child_appended` fails
         out.append(("appended_child_is_the_new_tree", w[0] == new.ident))
         if cx.ghost["case"] == "plain":
-            out.append(("child_carries_the_nonterminal", z3.BoolVal(new.fields.get("_symbol") is sym)))
+            out.append(("child_carries_the_nonterminal", same_obj(new.fields.get("_symbol"), sym)))
             ks = kids_seq(new)
-            out.append(("children_of_the_child_derive_the_rule_of_the_symbol",
-                        z3.BoolVal(False) if ks is None else Derives(Rule(g.ident, sym.ident), ks)))
+            if ks is None:
+                raise Unsupported("the new child's children are not a sequence of identities the contract can read")
+            out.append(("children_of_the_child_derive_the_rule_of_the_symbol", Derives(Rule(g.ident, sym.ident), ks)))
             out.append(("symbol_is_defined_in_the_grammar", InGrammar(g.ident, sym.ident)))
             return out
         # generator rule (C16)
         gen = cx.ghost.get("generated")
-        out.append(("child_is_the_tree_returned_by_the_generator", z3.BoolVal(gen is not None and new is gen[0])))
-        if gen is None or new is not gen[0]:
+        if gen is None:
+            raise Unsupported("generator rule: Grammar.generate was not called; the contract cannot read where the child comes from")
+        out.append(("child_is_the_tree_returned_by_the_generator", z3.BoolVal(new is gen[0])))
+        if new is not gen[0]:
             return out
         t, params = gen
         deps = cx.ghost.get("dependencies")
         if deps is None:
-            return out + [("generator_dependencies_were_fuzzed", z3.BoolVal(False))]
+            raise Unsupported("generator rule: Grammar.generator_dependencies was not called; the contract cannot relate parameters to dependencies")
         n = to_term_int(deps.length)
         j = z3.Int(cx._name("pj"))
         out.append(("one_parameter_tree_per_dependency", z3.Length(params) == n))
@@ -728,7 +756,7 @@ class NonTerminalNode_fuzz(Contract):
             ro = kids.ghost["arrays"]["read_only"][1]
             out.append(("generated_children_are_read_only", ForAll([j], Implies(And(j >= 0, j < to_term_int(kids.length)), ro[j]))))
         else:
-            out.append(("generated_children_are_read_only", z3.BoolVal(False)))
+            raise Unsupported("the generated tree's children are not the heap list the contract of Grammar.generate returns")
         out.append(("generated_tree_carries_the_parties_of_the_node",
                     z3.BoolVal(t.fields.get("_sender") is a["self"].fields["sender"] and t.fields.get("_recipient") is a["self"].fields["recipient"])))
         return out
@@ -748,7 +776,7 @@ def _dep_inv(cx, env, i):
     sym = env["self"].fields["symbol"]
     it = idx_term(i) if not isinstance(i, int) else z3.IntVal(i)
     if seq is None:
-        return [("parameters_are_a_sequence", z3.BoolVal(False))]
+        raise Unsupported("the dummy node's children are no longer a sequence of identities the contract can read")
     j = z3.Int(cx._name("dj"))
     return [("one_parameter_per_dependency_so_far", z3.Length(seq) == it),
             ("parameter_j_is_a_derivation_of_dependency_j", ForAll([j], Implies(And(j >= 0, j < it), Derives(NTNode(DepAt(sym.ident, j)), z3.Unit(seq[j])))))]
@@ -762,7 +790,7 @@ def _ro_havoc(cx, env, i):
 def _ro_inv(cx, env, i):
     kids = env["generated"].fields["_children"]
     if not (isinstance(kids, SList) and "arrays" in kids.ghost):
-        return [("generated_children_are_a_heap_list", z3.BoolVal(False))]
+        raise Unsupported("the generated tree's children are not the heap list the contract of Grammar.generate returns")
     ro = kids.ghost["arrays"]["read_only"][1]
     it = idx_term(i) if not isinstance(i, int) else z3.IntVal(i)
     j = z3.Int(cx._name("rj"))
@@ -795,10 +823,9 @@ class Grammar_fuzz(Contract):
 
     def ensures(self, cx, a, r):
         words = cx.ghost.get("fuzz_words", [])
-        ok = isinstance(r, SObj) and r.cls == "DerivationTree" and len(words) == 1
-        out = [("returns_the_tree_appended_by_the_start_node", z3.BoolVal(ok))]
-        if not ok:
-            return out
+        if not (isinstance(r, SObj) and r.cls == "DerivationTree" and len(words) == 1):
+            raise Unsupported("Grammar.fuzz: the result is not read off one fuzz() call of a start node in a form the contract can read")
+        out = []
         node, w = words[0]
         out.append(("start_node_is_the_node_of_the_start_symbol", node.ident == NTNode(a["start"].ident)))
         out.append(("result_is_the_appended_derivation", And(z3.Length(w) == 1, r.ident == w[0])))
